@@ -35,7 +35,17 @@ ServerOps(c, o) ==
      <<"C14_Released", C14_Released(c, o)>>,
      <<"X_NoPanic", \A i \in 1 .. Len(o) : o[i].k # "panic">> >>
 
-Ops(c, o) == ServerOps(c, o)
+ClientOps(c, o) ==
+  << <<"C08_NoPanic", C08_NoPanic(o)>>,
+     <<"C08_Returns", C08_Returns(o)>>,
+     <<"C08_Truthful", C08_Truthful(o)>>,
+     <<"C08_EchoId", C08_EchoId(o)>>,
+     <<"C08_CredsOnlyOnRequest", C08_CredsOnlyOnRequest(o)>>,
+     <<"C08_ClosesOnTerminal", C08_ClosesOnTerminal(o)>>,
+     <<"C09_ClientUpgrade", C09_ClientUpgrade(o)>>,
+     <<"C06_ClientSendGuard", C06_ClientSendGuard(o)>> >>
+
+Ops(c, o) == IF Role = "client" THEN ClientOps(c, o) ELSE ServerOps(c, o)
 
 Report(n, c, o) ==
   LET ops == Ops(c, o)
